@@ -167,6 +167,9 @@ def run(repo):
                             out += closure(n.value, depth + 1, seen)
                         elif isinstance(n, ast.AugAssign) and isinstance(n.target, ast.Name) and n.target.id == x.id:
                             out += closure(n.value, depth + 1, seen)
+                        elif isinstance(n, ast.Call) and isinstance(n.func, ast.Attribute) and \
+                                n.func.attr in ('append', 'extend', 'insert') and ntext(n.func.value) == x.id and n.args:
+                            out += closure(n.args[-1], depth + 1, seen)       # parts.append(dvar.vtype * k)
             return out
         for v in contrib:
             if isinstance(v, ast.Constant) and v.value == '':
